@@ -1,5 +1,7 @@
 """C18 — dates, times, numbers."""
+import z3
 from vlib.e1 import Cond
+from vlib import rx2smt as rx
 
 FUNCS = ['soupsieve.css_match.Inputs.validate_day', 'Inputs.validate_week', 'Inputs.validate_month',
          'Inputs.validate_year', 'Inputs.validate_hour', 'Inputs.validate_minutes', 'Inputs.parse_value',
@@ -40,7 +42,53 @@ CONDS = [
 ]
 
 
+def shape_lemmas(ctx):
+    """E2: each live value pattern accepts exactly the HTML microsyntax shape (unbounded strings, z3 regex theory)."""
+    from soupsieve import css_match as cm
+    D = rx.rng(48, 57)
+    d2 = z3.Loop(D, 2, 2)
+    y = z3.Concat(z3.Loop(D, 4, 4), z3.Star(D))
+
+    def L(s):
+        return z3.Re(rx.lit(s))
+    num = z3.Concat(z3.Option(L('-')), z3.Union(z3.Concat(z3.Plus(D), z3.Option(z3.Concat(L('.'), z3.Plus(D)))),
+                                                z3.Concat(L('.'), z3.Plus(D))),
+                    z3.Option(z3.Concat(z3.Union(L('e'), L('E')), z3.Option(z3.Union(L('+'), L('-'))), z3.Plus(D))))
+    refs = {
+        'RE_NUM': num, 'RE_TIME': z3.Concat(d2, L(':'), d2), 'RE_MONTH': z3.Concat(y, L('-'), d2),
+        'RE_WEEK': z3.Concat(y, L('-W'), d2), 'RE_DATE': z3.Concat(y, L('-'), d2, L('-'), d2),
+        'RE_DATETIME': z3.Concat(y, L('-'), d2, L('-'), d2, L('T'), d2, L(':'), d2),
+    }
+    x = z3.String('x')
+    for name, ref in refs.items():
+        pat = getattr(cm, name)
+        tr = rx.Translation(pat)
+        lang = tr.prefix_language()      # the code uses pattern.match(value)
+        s = z3.Solver()
+        s.add(z3.InRe(x, z3.Union(z3.Intersect(lang, z3.Complement(ref)), z3.Intersect(ref, z3.Complement(lang)))))
+        r = ctx.z3_check(s, name, 30000)
+        ob = dict(engine='E2/z3', name=f'{name} {pat.pattern!r} (as used with .match) == HTML microsyntax shape, unbounded strings',
+                  verdict={'unsat': 'exhaustive', 'sat': 'counterexample'}.get(r, 'inconclusive'), inexact=tr.inexact[:2])
+        if r == 'sat':
+            val = rx.decode(s.model().eval(x, model_completion=True))
+            ob['model'] = val
+            real = pat.match(val) is not None
+            py = __import__('re').fullmatch(r'-?(?:[0-9]+(?:\.[0-9]+)?|\.[0-9]+)(?:[eE][-+]?[0-9]+)?', val) is not None \
+                if name == 'RE_NUM' else None
+            ctx.report(dict(engine='E2', fn='shape_lemma', args=[name, val], args_repr=[repr(name), repr(val)],
+                            detail=f'{name}.match({val!r}) is {real}; the HTML shape says {not real}'), True)
+        ctx.obligation(**ob)
+        ctx.functions.add(f'soupsieve.css_match.{name}')
+
+
+def replay(rec):
+    from soupsieve import css_match as cm
+    name, val = rec['args']
+    return True, f'{name}.match({val!r}) -> {getattr(cm, name).match(val) is not None}'
+
+
 def run(ctx):
+    shape_lemmas(ctx)
     ctx.assume('reference calendar: p(y) = (y + y//4 - y//100 + y//400) mod 7; 53 weeks iff p(y)=4 or p(y-1)=3 '
                '(ISO 8601 / HTML "week number of the last day")',
                'CrossHair 0.0.110 path exhaustion and its int/str/regex models are trusted for "exhaustive" verdicts; '
